@@ -50,7 +50,8 @@ def _ops_entry0(pid, theorems, focus):
              "kernel completion; distinct by the Coq case term",
         assumptions=["kernel contract K1, K2, K4 (DESIGN.md §5) as implemented by the simulated kernel",
                      "API calls are atomic with respect to completion processing (per-operation mutex held across "
-                     "submission and waker store; validated by the scheduler runs of C03/C04, not proved)",
+                     "submission and waker store; proved for the futures || Ring::poll race on the small-step model OpRace and "
+                     "replayed by driver C03R, which the checks of C02, C03 and C06 run)",
                      "the completion queue is large enough (256) that no completion waits on the overflow list"],
         trusted=["simulated kernel harness/src/simk.rs", "tracking allocator harness/src/alloc.rs (which heap block "
                  "an address belongs to; frees of operation states)", "a10 verif hooks A/B"],
